@@ -23,18 +23,37 @@ def canon_replayed(comp, active, cand, ctrain, ctest):
 
 def run_case(ctx, res, spec, lines, post):
     rng = random.Random(spec['seed'])
+    narrow = 'targets' not in spec and bool(spec.get('narrow', rng.random() < 0.45))
+    if narrow:      # a rough (too narrow) initial guess of every coupling domain, widened by training as it goes
+        spec = dict(spec); spec['coupling_domain'] = rng.choice([(0.3, 0.5), (0.9, 1.0), (-0.2, 0.1)])
     system = sc.build_system(spec, listing=rng.sample(range(len(spec['comps'])), len(spec['comps'])))
     np.random.seed(spec['seed'] % 2 ** 31)
-    update_bounds = rng.random() < 0.3
+    update_bounds = narrow or rng.random() < 0.3
     nsteps = rng.randint(6, 12 if ctx.quick else 20)
     np.random.seed(spec['seed'] % 2 ** 31 + 5)
-    xtest = system.sample_inputs(5)
+    xtest = system.sample_inputs(12)
     snaps = []
+    via_fit = rng.random() < 0.4      # the history is recorded by fit() itself, one step per call, some calls out of time budget
     for step in range(nsteps):
-        r = system.refine(num_refine=30, update_bounds=update_bounds, targets=spec.get('targets'))
-        if r['component'] is None:
-            break
-        system.train_history.append(r)
+        if via_fit:
+            n0 = len(system.train_history)
+            n_act0 = sum(len(c.active_set) for c in system.components if c.has_surrogate)
+            kwf = dict(max_iter=1, max_tol=-np.inf, num_refine=30, update_bounds=update_bounds, targets=spec.get('targets'))
+            if rng.random() < 0.35:
+                kwf['runtime_hr'] = 0.0
+                res.hit('fit-step-ended-by-time-budget')
+            system.fit(**kwf)
+            if sum(len(c.active_set) for c in system.components if c.has_surrogate) == n_act0:
+                break
+            if len(system.train_history) != n0 + 1:
+                res.failures.append({'kind': 'activation-made-by-fit-not-recorded-in-history',
+                                     'input': {'spec': spec, 'step': step, 'fit_kwargs': {k_: str(v_) for k_, v_ in kwf.items()}},
+                                     'observed': len(system.train_history) - n0, 'expected': 1})
+        else:
+            r = system.refine(num_refine=30, update_bounds=update_bounds, targets=spec.get('targets'))
+            if r['component'] is None:
+                break
+            system.train_history.append(r)
         snap = {c.name: ic.canon_state(c) for c in system.components if c.has_surrogate}
         ready = all(len(c.active_set) > 0 for c in system.components if c.has_surrogate)
         # also before every component is initialised: the live system then returns NaN for the affected outputs, and so
@@ -53,7 +72,7 @@ def run_case(ctx, res, spec, lines, post):
             res.hit('live-predict-raised-before-all-components-initialised')
         snaps.append((snap, pred))
     surr = [c for c in system.components if c.has_surrogate]
-    info = {'spec': spec, 'update_bounds': update_bounds, 'steps': len(snaps)}
+    info = {'spec': spec, 'update_bounds': update_bounds, 'steps': len(snaps), 'via_fit': via_fit}
     # Lean: per component the recorded history replayed against the final live set
     scripts = {}
     for c in surr:
@@ -91,12 +110,12 @@ def run_case(ctx, res, spec, lines, post):
                                          'input': {**info, 'iteration': k + 1, 'mode': mode}, 'observed': repr(e)[:300]})
                     continue
                 for v, arr in pred[mode].items():
-                    tol = 1e-9 if not update_bounds else None
+                    tol = 1e-9
                     if tol is not None and not np.allclose(np.asarray(y[v]), arr, rtol=tol, atol=1e-12, equal_nan=True):
                         res.failures.append({'kind': 'prediction-with-replayed-structures-differs-from-live',
                                              'input': {**info, 'iteration': k + 1, 'mode': mode, 'output': v},
                                              'observed': np.asarray(y[v]).tolist(), 'expected': arr.tolist()})
-            res.hit('replayed-prediction-checked' if not update_bounds else 'replayed-prediction-run-only(bounds-moved)')
+            res.hit('replayed-prediction-checked' if not update_bounds else 'replayed-prediction-checked(bounds-moved)')
         res.hit('iteration-compared')
     if k + 1 != len(snaps):
         res.failures.append({'kind': 'replay-length-differs', 'input': info, 'observed': k + 1, 'expected': len(snaps)})
@@ -111,6 +130,8 @@ def run_case(ctx, res, spec, lines, post):
         lines.extend(setup); post.extend([None] * len(setup))
         for ln, pst in sims:
             lines.append(ln); post.append(pst)
+    if narrow:
+        res.hit('narrow-initial-coupling-domains-widened-by-training')
     if any(c['na'] for c in spec['comps']):
         res.hit('with-model-fidelity')
     if any(c['nosurr'] for c in spec['comps']):
@@ -120,6 +141,7 @@ def run_case(ctx, res, spec, lines, post):
 
 
 def zeroed(spec, k):
+    spec['narrow'] = (k % 2 == 0)
     """every third system: the last surrogate component's model vanishes on its coarse grids and training targets only its
     output, so that ordinary (non-initial) refinement steps are recorded with an undefined (NaN) error indicator"""
     if k % 3 != 1:
@@ -135,11 +157,12 @@ def run(ctx: core.Ctx, only=None) -> core.Result:
     res = core.Result()
     res.rule = ('random training histories over 2-3-component feed-forward systems (with/without model fidelities, with '
                 'surrogate-less components, random listing order); every iteration: simulate_fit() structures vs live '
-                'snapshots vs the Lean replay; predictions with replayed structures vs stored live predictions (when no '
-                'coupling bound moved). non-trivial = >= 6 iterations.')
+                'snapshots vs the Lean replay; predictions with replayed structures vs stored live predictions (also with narrow '
+                'initial coupling-domain guesses widened by update_bounds); 40 % of the histories are recorded by fit() itself, one '
+                'step per call, some calls ended by the time budget. non-trivial = >= 6 iterations.')
     lines, post = [], []
     specs = [o.get('input', o).get('spec', o.get('input', o)) for o in only] if only is not None else \
-        [c.get('spec', c) for c in core.corpus_cases('C18')] + [zeroed(sc.gen_system_spec(ctx.rng), k) for k in range(ctx.scale(6, 60))]
+        [c.get('spec', c) for c in core.corpus_cases('C18')] + [zeroed(sc.gen_system_spec(ctx.rng), k) for k in range(ctx.scale(10, 60))]
     for spec in specs:
         with core.guarded(res, 'scenario-raised', {'spec': spec}):
             sub_lines, sub_post = [], []
@@ -156,5 +179,5 @@ def run(ctx: core.Ctx, only=None) -> core.Result:
     return res
 
 
-ASSUMPTIONS = ['predictions with replayed structures are compared with the live ones only when no coupling bound moved '
-               'during training (otherwise stored normalised data are re-labelled: findings F6/F7 of C04/C16)']
+ASSUMPTIONS = ['predictions with replayed structures are compared with the live ones also when coupling bounds moved during '
+               'training (coupling variables without minmax normalisation; minmax re-labelling is finding F6 of C04/C16)']
